@@ -1,0 +1,77 @@
+/* Verification hooks (failpoints and reach counters); active only when
+   BUGSENG_PPL_VERIF is defined.  Not part of the library proper.  */
+#ifndef PPL_verif_hooks_hh
+#define PPL_verif_hooks_hh 1
+
+#ifdef BUGSENG_PPL_VERIF
+
+namespace Parma_Polyhedra_Library {
+namespace Implementation {
+namespace Verif {
+
+enum Reach_Id {
+  PPL_VR_POLY_CONVERSION,
+  PPL_VR_POLY_SIMPLIFY,
+  PPL_VR_POLY_STRONG_MIN_CONS,
+  PPL_VR_POLY_STRONG_MIN_GENS,
+  PPL_VR_H79_WIDENING,
+  PPL_VR_BHRZ03_WIDENING,
+  PPL_VR_MIP_MERGE_SPLIT,
+  PPL_VR_MIP_PRICE_FLOAT,
+  PPL_VR_MIP_PRICE_EXACT,
+  PPL_VR_MIP_PRICE_TEXTBOOK,
+  PPL_VR_MIP_PIVOT,
+  PPL_VR_MIP_SOLVE_MIP,
+  PPL_VR_MIP_IS_MIP_SAT,
+  PPL_VR_PIP_ROW_SIGN,
+  PPL_VR_PIP_COMPAT_CHECK,
+  PPL_VR_PIP_GENERATE_CUT,
+  PPL_VR_GRID_CONV_G2C,
+  PPL_VR_GRID_CONV_C2G,
+  PPL_VR_GRID_SIMPLIFY_G,
+  PPL_VR_GRID_SIMPLIFY_C,
+  PPL_VR_COTREE_BIGGER,
+  PPL_VR_COTREE_REBALANCE,
+  PPL_VR_COTREE_REDISTRIBUTE,
+  PPL_VR_COTREE_SMALLER,
+  PPL_VR_BDS_CLOSURE,
+  PPL_VR_BDS_INCR_CLOSURE,
+  PPL_VR_BDS_REDUCTION,
+  PPL_VR_OCT_CLOSURE,
+  PPL_VR_OCT_INCR_CLOSURE,
+  PPL_VR_OCT_REDUCTION,
+  PPL_VR_BOX_PROPAGATE,
+  PPL_VR_DETERMINATE_MUTATE,
+  PPL_VR_POWERSET_OMEGA_REDUCE,
+  PPL_VR_BHRZ03_COMBINING_OK,
+  PPL_VR_BHRZ03_EVOLVING_POINTS_OK,
+  PPL_VR_BHRZ03_EVOLVING_RAYS_OK,
+  PPL_VR_BHRZ03_FALLBACK_H79,
+  PPL_VR_COUNT
+};
+
+//! Reach counters: incremented each time the instrumented mechanism runs.
+extern unsigned long reach[PPL_VR_COUNT];
+//! Names of the reach counters, indexed by Reach_Id.
+extern const char* const reach_names[PPL_VR_COUNT];
+//! Failpoint hook: called with the failpoint's name, if non-null.
+extern void (*point_hook)(const char* id);
+
+} // namespace Verif
+} // namespace Implementation
+} // namespace Parma_Polyhedra_Library
+
+#define PPL_VERIF_REACH(id)                                             \
+  (++::Parma_Polyhedra_Library::Implementation::Verif::reach            \
+     [::Parma_Polyhedra_Library::Implementation::Verif::PPL_VR_##id])
+
+#define PPL_VERIF_POINT(name)                                                \
+  do {                                                                       \
+    if (::Parma_Polyhedra_Library::Implementation::Verif::point_hook != 0) { \
+      ::Parma_Polyhedra_Library::Implementation::Verif::point_hook(name);    \
+    }                                                                        \
+  } while (false)
+
+#endif // defined(BUGSENG_PPL_VERIF)
+
+#endif // !defined(PPL_verif_hooks_hh)
